@@ -248,17 +248,17 @@ func capPaths(n int, edges [][2]int, limit int) [][2]int {
 }
 
 type dagEvents struct {
-	mu        sync.Mutex
-	started   []int // count of starts
-	ended     []bool
-	succeeded []bool
-	failedRun []bool
-	cancelled []bool
-	cbTask    map[*simrt.Task]int
-	running   int
-	maxRun    int
-	failSeen  bool // a failing node's routine has returned
-	nStarts   int
+	mu              sync.Mutex
+	started         []int // count of starts
+	ended           []bool
+	succeeded       []bool
+	failedRun       []bool
+	cancelled       []bool
+	cbTask          map[*simrt.Task]int
+	running         int
+	maxRun          int
+	failSeen        bool // a failing node's routine has returned
+	nStarts         int
 	startsAfterFail int
 }
 
